@@ -83,5 +83,62 @@ def any_sets_agree(ti, k0, k1, wrap):
           family="sets with as-is elements (Any / object): hashable and unhashable elements, the three debug modes agree on the kind of outcome",
           bounds="6 types (Set[Any], FrozenSet[object], inside Union / Dict / List / Optional) x 2 elements from an 8-value pool (int, list, dict, tuple, None, str, nested) x strict / lax")
     mods.append(mx)
+    mk = Module("c06_mapkinds").pre('''
+import collections, types, dataclasses
+from adaptix import Retort, name_mapping
+# the datum of a model loader is any Mapping: dict subclasses with __missing__ (defaultdict, Counter), OrderedDict, read-only proxies, ChainMap, UserDict
+@dataclasses.dataclass
+class MK:
+    first: Stub = dataclasses.field(default_factory=lambda: Stub(90))      # the FIRST field is optional
+    req: Stub = None
+    last: Stub = dataclasses.field(default_factory=lambda: Stub(92))
+    def __post_init__(self):
+        if self.req is None: raise TypeError("req is required")
+@dataclasses.dataclass
+class MKr:
+    req: Stub
+    opt: Stub = dataclasses.field(default_factory=lambda: Stub(91))
+MK_RECIPES = {"plain": [], "renamed": [name_mapping(MK, map={"first": "f0"}), name_mapping(MKr, map={"opt": ("m", "o")})]}
+MK_RS = {(rn, k): r for rn, rc in MK_RECIPES.items() for k, r in six_retorts(rc + STUB_RECIPE).items()}
+MK_LD = {key: (r.get_loader(MKr), r.get_loader(MK)) for key, r in MK_RS.items()}
+def _ctr(d):
+    c = collections.Counter(); c.update({k: 0 for k in d}); 
+    for k, v in d.items(): dict.__setitem__(c, k, v)
+    return c
+MAP_KINDS = (dict, collections.OrderedDict, lambda d: collections.defaultdict(lambda: 5, d), lambda d: collections.defaultdict(list, d), _ctr,
+             types.MappingProxyType, lambda d: collections.ChainMap(d, {}), collections.UserDict)
+def map_kinds(rn, mk, p_opt, v_req, v_opt, which):
+    rn = ("plain", "renamed")[pick(rn, 2)]
+    conv = MAP_KINDS[pick(mk, len(MAP_KINDS))]
+    for strict in (True, False):
+        outs = []
+        for dt in DT_MODES:
+            l_r, l_k = MK_LD[(rn, (strict, dt))]
+            if which:
+                data = {"req": v_req}
+                if p_opt:
+                    if rn == "renamed": data["m"] = conv({"o": v_opt})
+                    else: data["opt"] = v_opt
+                elif rn == "renamed": data["m"] = conv({})
+                o = outcome(l_r, conv(data))
+                sig = (o[0], (o[2].req, o[2].opt) if o[0] == "ok" else None)
+            else:
+                data = {"req": v_req}
+                if p_opt: data["f0" if rn == "renamed" else "first"] = v_opt
+                o = outcome(l_k, conv(data))
+                sig = (o[0], (o[2].first, o[2].req, o[2].last) if o[0] == "ok" else None)
+            outs.append(sig)
+        if outs[0] != outs[1] or outs[1] != outs[2]: return False
+        # an absent optional key means the default, whatever __missing__ of the datum would invent
+        if outs[0][0] == "ok":
+            if which and outs[0][1] != (Stub(v_req), Stub(v_opt) if p_opt else Stub(91)): return False
+            if not which and outs[0][1] != (Stub(v_opt) if p_opt else Stub(90), Stub(v_req), Stub(92)): return False
+    return True
+''')
+    mk.ob("mapping_kinds_modes_agree", "rn: int, mk: int, p_opt: bool, v_req: int, v_opt: int, which: bool", "return map_kinds(rn, mk, p_opt, v_req, v_opt, which)",
+          pre=["0 <= rn < 2", "0 <= mk < 8", "v_req >= -1 and v_opt >= -1"], timeout=120 if tier == "quick" else 600,
+          family="model loaders given every kind of Mapping (dict subclasses with __missing__, read-only proxies, ChainMap, UserDict): the three debug modes agree and an absent optional key is the default",
+          bounds="2 models (optional field first / last, nested renamed path) x 2 recipes x 8 mapping kinds x presence of the optional key; stub codes symbolic; strict / lax")
+    mods.append(mk)
     return Plan("C06", mods, assumptions=["CrossHair models of builtins (floats as reals: numeric boundary regions are owned by the E2 kernels)"],
                 bounds={}, outside=["strings longer than the bound"])
